@@ -195,6 +195,21 @@ def run(ctx, rep):
                        'parse_index is fed from `%s`, not from chunks_exact(INDEX_SIZE): a partially written trailing index record reaches the fixed-position slices and panics at start-up' % src[:160])
         rep.ob('R04.g', PI, 'uses enumerated', uses >= 3, None, '%d uses' % uses)
 
+    # ------------------------------------------------------------ R04.l the segment lifecycle keeps its steps
+    rep.rule('R04.l', 'the segment lifecycle keeps its steps: loading opens writers and readers, loads the index and bounds the log by the last indexed batch; persisting writes the batch, then its index entry; closing syncs', floor=18, analysis='A1 required callees')
+    from props import storage_forms as sf_
+    sf_.lifecycle_steps(ctx, rep, 'R04.l', only=('Segment::load_from_disk', 'Segment::persist', 'Segment::initialize_writing', 'Segment::initialize_reading', 'Segment::shutdown_writing', 'Segment::persist_messages', 'PartitionStorage>::load'))
+
+    # ------------------------------------------------------------ R04.m the unsaved counter is reset only by a save
+    rep.rule('R04.m', 'the count of unsaved messages of a partition goes back to 0 only where the buffer was handed to Segment::persist_messages first (or the partition was purged): a reset without the save postpones the save of a full buffer to the next background pass', floor=2, analysis='A2 ordering')
+    import forms as forms_
+    for fn, b_, bb_, ln_, form_ in forms_.field_assignments(ctx, sf_.PART, 'unsaved_messages_count'):
+        if form_ != '0' or fn == sf_.PURGE:
+            continue
+        pm = [c for c in b_.calls if c.name.endswith('Segment::persist_messages')]
+        ok = any(bb_ in b_.reachable(c.bb) for c in pm)
+        rep.ob('R04.m', fn, 'reset after persist_messages', ok, '%s:%s' % (b_.file, ln_), None if ok else 'unsaved_messages_count is reset to 0 in a function that does not save the buffer first')
+
 
 LW = 'server::streaming::segments::logs::log_writer::SegmentLogWriter'
 PT = 'server::streaming::segments::logs::persister_task::PersisterTask'
